@@ -10,7 +10,21 @@ for f in sorted(glob.glob(os.path.join(HERE, "sensitivity/results/*.log"))):
         name, cid, verdict, why = m.groups()
         key = re.search(r"(C\d\d/[^\s:]+)", why)
         rows.setdefault(name, collections.OrderedDict())[cid] = (verdict, key.group(1) if key else "")
+FIXES = {}
+try:
+    known = {f.get("commit"): f.get("what", "") for f in json.load(open(os.path.join(HERE, "known_findings.json")))["findings"] if f.get("status") == "fixed"}
+    for l in open(os.path.join(HERE, "tools/sens_all.sh")):
+        m = re.match(r"rev (\S+) ([0-9a-f]{7})", l)
+        if m and m.group(2) in known:
+            FIXES["fix-" + m.group(1)] = "revert of " + m.group(2) + ": " + re.sub(r"^fixed: property=\S+ \S+ ", "", known[m.group(2)])
+    FIXES["fix-recipient-scheme"] = "revert of 3a97a18 (with 8804494): " + re.sub(r"^fixed: property=\S+ \S+ ", "", known.get("3a97a18", ""))
+except Exception:
+    pass
 def summary(name):
+    if name in FIXES:
+        return FIXES[name]
+    if name.startswith("own-"):
+        return "hand-written mutant " + name[4:] + " (sensitivity/own/" + name[4:] + ".diff)"
     if name.startswith("seed-"):
         p = os.path.join(HERE, "seeded", name[5:], "meta.json")
         if os.path.exists(p):
